@@ -121,7 +121,30 @@ def run(tier):
                            {'ping_interval': 8, 'ping_timeout': 4, 'monitor': True},
                            'requests, malformed bodies and application disconnect calls')
     plans.append(pp)
+    # asyncio: the same scripts with coroutine handlers that really suspend (the handlers of the
+    # other plans never yield to the loop); judged with outputs as a bag / by the history
+    # contract, and compared with the non-suspending run: a handler that suspends must not change
+    # which application calls return
+    api_scripts = c15_scripts(seed + 2, n // 2, w_api)
+    plans.append(dict(what='application disconnect calls with coroutine handlers that suspend',
+                      impl='async', relax=True,
+                      cfg={'ping_interval': 8, 'ping_timeout': 4, 'monitor': True,
+                           'handlers_yield': True}, nslots=2, scripts=api_scripts))
     done = core.conform(ck, plans)
+    by_what = {(p['impl'], p['what']): facts for p, traces, facts, v in done}
+    plain = by_what.get(('async', 'same with application disconnect(sid) calls'))
+    susp = by_what.get(('async', 'application disconnect calls with coroutine handlers that suspend'))
+    if plain and susp:
+        ndiff = 0
+        for fa, fb in zip(plain, susp):
+            extra = sorted(set(map(str, fb['blocked'])) - set(map(str, fa['blocked'])))
+            if extra and ndiff < 3:
+                ndiff += 1
+                ck.violation('asyncio: application call(s) %s return with plain handlers but never '
+                             'return when the coroutine handlers suspend' % extra,
+                             {'impl': 'async', 'cfg': fb['cfg'], 'nslots': 2, 'script': fb['script'],
+                              'blocked': extra, 'sig': fb.get('blocked_sig'), 'kind': 'blocked'})
+        ck.cov['suspending_handler_pairs'] = len(plain)
     core.l2_conform(ck, seed, 300 if th else 60)
     # ---- completion, gateway protocol, status set ------------------------------------------
     nreq = 0
